@@ -15,11 +15,17 @@ _DEFAULT_KEYS = (SERVER_KEY, OTHER_KEY)
 NONASCII_SECRET = u'\u043e\u0447\u0435\u043d\u044c-\u0434\u043b\u0438\u043d\u043d\u044b\u0439-\u043a\u043b\u044e\u0447'
 
 
-def set_keys(case):
+def set_keys(case, keys=None):
     """the form of the server's secret is a configuration dimension: bytes, ASCII text, or a non-ASCII passphrase (its key
     bytes are its UTF-8 encoding); for the latter the 'other key' of the re-signing tamper step is the passphrase with
-    every non-ASCII character collapsed to '?'"""
+    every non-ASCII character collapsed to '?'.  'default': no secret is configured, every middleware draws its own; the
+    keys are read off the built middlewares (keys = [first, second] in hex) and the 'other key' is the second middleware's"""
     global SERVER_KEY, OTHER_KEY
+    if case.get('secret') == 'default':
+        SERVER_KEY, OTHER_KEY = _DEFAULT_KEYS
+        if keys:
+            SERVER_KEY, OTHER_KEY = bytes.fromhex(keys[0]), bytes.fromhex(keys[1])
+        return
     if case.get('secret') == 'nonascii':
         SERVER_KEY = NONASCII_SECRET.encode('utf8')
         OTHER_KEY = NONASCII_SECRET.encode('ascii', 'replace')
@@ -29,6 +35,8 @@ def set_keys(case):
 
 def secret_arg(case):
     form = case.get('secret')
+    if form == 'default':
+        return None
     return NONASCII_SECRET if form == 'nonascii' else (_DEFAULT_KEYS[0].decode('ascii') if form == 'text' else _DEFAULT_KEYS[0])
 VALUES = [1, 0, -5, 3.5, True, False, 1.0, 0.0, [True, False, True], [1, 0, 1], None, '', 'x', 'é中', [1, [2, {'a': None}]], {'k': 'v', 'n': [1, 2]}, 'a=b&c?d', '"q"', 10 ** 20,
           # texts whose JSON contains '>', '?' or '~' at every offset modulo 3 (base64 alphabets differ exactly there)
@@ -114,13 +122,16 @@ def build(case):
                 cookie.clear()
             elif op[0] == 'expire':
                 cookie.set_expires(int(state['now'] + op[1]))       # the public JSONCookie API (examples/basic.py logout idiom)
+            elif op[0] == 'expire_abs':
+                cookie.set_expires(op[1])                           # an absolute time, the epoch itself included
         return Response(json.dumps(given, sort_keys=True), mimetype='application/json')
     mw = SignedCookieMiddleware(arg_name=arg, cookie_name=case['cookie_name'], secret_key=secret_arg(case), expiry=expiry)
     if case.get('second_cookie'):
         # a second, independent signed cookie whose name merely BEGINS with the first one's name; the endpoint writes it on
         # every request and reports what it found in it
         arg2 = arg + '_prefs'
-        mw2 = SignedCookieMiddleware(arg_name=arg2, cookie_name=mw.cookie_name + '_prefs', secret_key=b'second-key-' * 2)
+        mw2 = SignedCookieMiddleware(arg_name=arg2, cookie_name=mw.cookie_name + '_prefs',
+                                     secret_key=None if case.get('secret') == 'default' else b'second-key-' * 2)
 
         def body2(c1, c2):
             seen2 = dict(c2)
@@ -193,6 +204,11 @@ def impl(case):
     import clastic.middleware.cookie as cm
     set_keys(case)
     app, state, cname = build(case)
+    keys = None
+    if case.get('secret') == 'default':
+        ks = [m.secret_key for m in app.middlewares]
+        keys = [ks[0].hex(), (ks[1] if len(ks) > 1 else OTHER_KEY).hex()]
+        set_keys(case, keys)
     rng = random.Random(case['seed'])
     clock = {'now': 1000000.0}
     orig = (sc.time, cm.time)
@@ -211,6 +227,9 @@ def impl(case):
             state['n'] = n_step
             clock['now'] += step['advance']
             sent = tamper(step['tamper'], cur, old, rng)
+            if step['tamper'] == 'cross_name' and jar2 is not None:
+                # the value the server issued for its OTHER signed cookie, presented under this cookie's name
+                sent = bytes(jar2[1:-1], 'latin-1').decode('unicode_escape') if jar2.startswith('"') else jar2
             state['ops'] = step['ops']
             state['now'] = clock['now']
             env = wsgi.environ('/')
@@ -243,7 +262,7 @@ def impl(case):
                     second = json.loads(r.header('X-Second')) if r.header('X-Second') else 'missing'
                 except Exception:
                     second = 'unreadable'
-            out.append({'second': second, 'status': r.code, 'exc': type(r.exc).__name__ if r.exc else None, 'given': given, 'sent': sent,
+            out.append({'keys': keys, 'second': second, 'status': r.code, 'exc': type(r.exc).__name__ if r.exc else None, 'given': given, 'sent': sent,
                         'set_cookie': new, 'now': clock['now']})
             if new is not None:
                 old, cur = cur, new
@@ -262,6 +281,8 @@ def oracle(case, obs):
             return ('%s: status %s for cookie %r' % (what, o['status'], o['sent']), 'error-response')
         _, verdict = classify(o['sent'], None)
         want = {}
+        if step['tamper'] == 'cross_name' and case.get('secret') == 'default' and case.get('second_cookie'):
+            verdict = None                # issued for another cookie by a middleware with its own (drawn) secret: not this one's data
         if verdict is not None:
             exp = verdict.get('_expires')
             if exp is None:
@@ -317,6 +338,9 @@ def history_oracle(case, obs):
             elif op[0] == 'expire':
                 d['_expires'] = int(o['now'] + op[1])
                 modified = True
+            elif op[0] == 'expire_abs':
+                d['_expires'] = op[1]
+                modified = True
             else:
                 d.clear()
                 modified = True
@@ -343,13 +367,15 @@ def gen_case(rng, tier):
                 ops.append(['set', k, rng.choice(VALUES)])
             elif x < 0.8:
                 ops.append(['del', rng.choice(KEYS)])
-            elif x < 0.9:
+            elif x < 0.87:
                 ops.append(['expire', rng.choice([-500, -1, 30, 60, 1000])])
+            elif x < 0.9:
+                ops.append(['expire_abs', rng.choice([0, 0, 1, 999999, 1000200, 4102444800])])
             else:
                 ops.append(['clear'])
         adv = rng.choice([0, 1, 1, 10, 49, 50, 51, 99, 100, 101, 500])
-        steps.append({'ops': ops, 'advance': adv, 'tamper': rng.choice(TAMPER)})
-    return {'second_cookie': rng.random() < 0.3, 'secret': rng.choice(['bytes', 'bytes', 'text', 'nonascii']), 'expiry': ex, 'steps': steps, 'seed': rng.randrange(10 ** 6), 'arg_name': rng.choice(['cookie', 'session', 'sess_1']),
+        steps.append({'ops': ops, 'advance': adv, 'tamper': rng.choice(TAMPER + ['cross_name'])})
+    return {'second_cookie': rng.random() < 0.3, 'secret': rng.choice(['bytes', 'bytes', 'text', 'nonascii', 'default']), 'expiry': ex, 'steps': steps, 'seed': rng.randrange(10 ** 6), 'arg_name': rng.choice(['cookie', 'session', 'sess_1']),
             'cookie_name': rng.choice([None, 'sid', 'my-cookie'])}
 
 
@@ -375,13 +401,28 @@ def run(rep, b, tier, seed, only_cases=None):
                                       {'ops': [], 'advance': 0, 'tamper': 'replay_old'},
                                       {'ops': [['set', 'b', 1]], 'advance': adv, 'tamper': 'none'},
                                       {'ops': [], 'advance': 0, 'tamper': 'none'}]})
+        # two signed cookies of one application, no secret configured: each middleware draws its own; what was issued for one
+        # cookie is presented under the other's name
+        for arg in ('cookie', 'session'):
+            out.append({'secret': 'default', 'second_cookie': True, 'expiry': 'session', 'seed': 2, 'arg_name': arg, 'cookie_name': None,
+                        'steps': [{'ops': [['set', 'user', 'alice']], 'advance': 1, 'tamper': 'none'},
+                                  {'ops': [], 'advance': 1, 'tamper': 'none'},
+                                  {'ops': [], 'advance': 1, 'tamper': 'cross_name'},
+                                  {'ops': [], 'advance': 1, 'tamper': 'none'}]})
+        # logout by set_expires(0): the cookie sent with that very response is presented again later
+        for ex in ('session', 'never', ['numeric', 100]):
+            out.append({'secret': 'bytes', 'second_cookie': False, 'expiry': ex, 'seed': 3, 'arg_name': 'cookie', 'cookie_name': None,
+                        'steps': [{'ops': [['set', 'user', 'alice']], 'advance': 1, 'tamper': 'none'},
+                                  {'ops': [['expire_abs', 0]], 'advance': 1, 'tamper': 'none'},
+                                  {'ops': [], 'advance': 1, 'tamper': 'none'},
+                                  {'ops': [], 'advance': 500, 'tamper': 'none'}]})
         return out
     cases = list(only_cases) if only_cases is not None else corpus + directed() + \
         [gen_case(rng, tier) for _ in range(300 if tier == 'quick' else 3000)]
     rep.rule = ('cookielab: histories of %s requests by one client: per request 0-2 operations {set key to a JSON value from %d '
-                '(nested, unicode, numbers, empty), delete, clear, set_expires(now + {-500,-1,30,60,1000})}, a clock advance around the expiry (patched clocks in '
+                '(nested, unicode, numbers, empty), delete, clear, set_expires(now + {-500,-1,30,60,1000}), set_expires(absolute time incl. 0)}, a clock advance around the expiry (patched clocks in '
                 'secure_cookie and the middleware), and a tampering step from %d kinds applied to the cookie the client sends '
-                'back; expiry session / never / numeric; the secret given as bytes, ASCII text or a non-ASCII passphrase (re-signing then uses its question-mark-collapsed form); custom cookie and argument names; raw Cookie headers. Every request: '
+                'back; expiry session / never / numeric; the secret given as bytes, ASCII text, a non-ASCII passphrase or not at all (each middleware draws its own; with two signed cookies in one application the value issued for one is presented under the name of the other) (re-signing then uses its question-mark-collapsed form); custom cookie and argument names; raw Cookie headers. Every request: '
                 'status, the cookie contents the endpoint saw, the Set-Cookie value; compared with Model/Cookie.mw_request and '
                 'with an independent re-statement (HMAC-SHA1 recomputed in the harness). non-trivial = histories with a '
                 'tampering step or an expiry.' % ('3-10' if tier == 'quick' else '6-30', len(VALUES), len(set(TAMPER))))
@@ -390,8 +431,10 @@ def run(rep, b, tier, seed, only_cases=None):
                        "the key '_expires' is reserved by the mechanism (O8)"]
     obs = core.run_impl_workers('c16', cases)[0]
     lines, index = [], []
+    def keys_of(o):
+        return o[0].get('keys') if isinstance(o, list) and o and isinstance(o[0], dict) else None
     for i, (c, o) in enumerate(zip(cases, obs)):
-        set_keys(c)
+        set_keys(c, keys_of(o))
         if isinstance(o, dict) and '_harness_exception' in o:
             rep.broken('harness exception on implementation side', {'case': c, 'obs': o})
             continue
@@ -405,6 +448,8 @@ def run(rep, b, tier, seed, only_cases=None):
                     ops.append(['del', op[1].encode('utf8')])
                 elif op[0] == 'expire':
                     ops.append(['set', b'_expires', str(int(r['now'] + op[1])).encode()])
+                elif op[0] == 'expire_abs':
+                    ops.append(['set', b'_expires', str(op[1]).encode()])
                 else:
                     ops.append('clear')
             ex = c['expiry'] if isinstance(c['expiry'], str) else ['numeric', c['expiry'][1]]
@@ -413,7 +458,7 @@ def run(rep, b, tier, seed, only_cases=None):
     # whole histories: the jar is carried by the model (run_history); only tampered cookies are fed in
     hlines, hindex = [], []
     for i, (c, o) in enumerate(zip(cases, obs)):
-        set_keys(c)
+        set_keys(c, keys_of(o))
         if isinstance(o, dict) and '_harness_exception' in o:
             continue
         hist = []
@@ -429,6 +474,8 @@ def run(rep, b, tier, seed, only_cases=None):
                     ops.append(['del', op[1].encode('utf8')])
                 elif op[0] == 'expire':
                     ops.append(['set', b'_expires', str(int(r['now'] + op[1])).encode()])
+                elif op[0] == 'expire_abs':
+                    ops.append(['set', b'_expires', str(op[1]).encode()])
                 else:
                     ops.append('clear')
             hist.append(['req', int(r['now']), ops])
@@ -467,7 +514,7 @@ def run(rep, b, tier, seed, only_cases=None):
         for (i, k), line in zip(index, model_out):
             t = sexp.loads(line)
             c, r = cases[i], obs[i][k]
-            set_keys(c)
+            set_keys(c, keys_of(obs[i]))
             try:
                 given = dict((kv[0].decode('utf8'), json.loads(kv[1].decode('utf8'))) for kv in t[0])
                 stored = None if t[1] == b'None' else dict((kv[0].decode('utf8'), json.loads(kv[1].decode('utf8'))) for kv in t[1][0])
@@ -491,7 +538,7 @@ def run(rep, b, tier, seed, only_cases=None):
             else:
                 rep.traces += 1
     for c, o in zip(cases, obs):
-        set_keys(c)
+        set_keys(c, keys_of(o))
         if isinstance(o, dict) and '_harness_exception' in o:
             continue
         v = oracle(c, o) or history_oracle(c, o)
